@@ -212,7 +212,17 @@ func viaModuleBase(arts []pgs.Artifact) []pgs.Artifact {
 	b.InitContext(pgs.Context(pgs.InitMockDebugger(), pgs.Parameters{}, "gen"))
 	b.PushDir("sub")
 	b.Push("helper")
-	for _, a := range arts {
+	// some modules collect what they have so far, go on adding, and collect again: the first batch
+	// (held, only read) must still be what it was when it is handed over together with the second
+	split := -1
+	if len(arts)%4 == 3 {
+		split = len(arts) / 2
+	}
+	var first []pgs.Artifact
+	for i, a := range arts {
+		if i == split {
+			first = b.Artifacts()
+		}
 		switch x := a.(type) {
 		case pgs.GeneratorFile:
 			if x.Overwrite {
@@ -252,7 +262,7 @@ func viaModuleBase(arts []pgs.Artifact) []pgs.Artifact {
 			b.AddArtifact(a)
 		}
 	}
-	out := b.Artifacts()
+	out := append(append([]pgs.Artifact{}, first...), b.Artifacts()...)
 	if again := b.Artifacts(); len(again) != 0 { // "subsequent calls return nil until more artifacts are added"
 		out = append(out, again...)
 	}
